@@ -14,8 +14,10 @@ package scheduler
 import (
 	"fmt"
 	"os"
+	"strconv"
 	"strings"
 	"sync"
+	"sync/atomic"
 	"testing"
 	"time"
 
@@ -176,7 +178,7 @@ type c17world struct {
 	stuck   bool
 }
 
-var c17slowWaits int
+var c17slowWaits int32
 
 func c17waitN(n int, cond func() bool) bool {
 	for i := 0; i < n; i++ {
@@ -214,7 +216,28 @@ func c17resName(err error) string {
 	return "ROther"
 }
 
-func newC17world(nblobs int, knownMask int, seederTTI, leecherTTI int) *c17world {
+// newC17world builds a world; a listen-port race with a concurrently built world is retried.
+func newC17world(nblobs int, knownMask int, seederTTI, leecherTTI int) (w *c17world) {
+	for attempt := 0; ; attempt++ {
+		func() {
+			defer func() {
+				if e := recover(); e != nil {
+					if attempt >= 5 {
+						panic(e)
+					}
+					w = nil
+				}
+			}()
+			w = newC17worldOnce(nblobs, knownMask, seederTTI, leecherTTI)
+		}()
+		if w != nil {
+			return w
+		}
+		time.Sleep(20 * time.Millisecond)
+	}
+}
+
+func newC17worldOnce(nblobs int, knownMask int, seederTTI, leecherTTI int) *c17world {
 	w := &c17world{results: make(chan c17res, 64), got: map[int]string{}, newEv: map[int]*c17pend{},
 		tid: map[int]int{}, dispID: map[*dispatch.Dispatcher]int{}}
 	cads, c := store.CADownloadStoreFixture()
@@ -498,6 +521,11 @@ type c17script func(w *c17world, r *verifhlib.Rng, step int) (c17op, bool)
 // runCase executes a schedule produced step by step by `next` (which sees the live world),
 // then shuts down and drains, and emits the case.
 func c17runCase(ctx *verifhlib.Ctx, kind string, nblobs, knownMask, sTTI, lTTI int, next c17script, r *verifhlib.Rng, tags []string) {
+	ctx.Emit(c17oneCase(kind, nblobs, knownMask, sTTI, lTTI, next, r, tags))
+}
+
+// c17oneCase runs one schedule in a world of its own and returns the case to emit.
+func c17oneCase(kind string, nblobs, knownMask, sTTI, lTTI int, next c17script, r *verifhlib.Rng, tags []string) verifhlib.Case {
 	w := newC17world(nblobs, knownMask, sTTI, lTTI)
 	var ops []c17op
 	incon := false
@@ -550,8 +578,7 @@ func c17runCase(ctx *verifhlib.Ctx, kind string, nblobs, knownMask, sTTI, lTTI i
 	// returns at once. A call still blocked after a generous wait never returns. (The long
 	// wait is only ever spent on a tree where calls are lost.)
 	allBack := c17waitN(4000, back)
-	if !allBack && c17slowWaits < 6 {
-		c17slowWaits++
+	if !allBack && atomic.AddInt32(&c17slowWaits, 1) <= 6 {
 		allBack = c17waitN(30000, back)
 	}
 	var sops, sobs, hist []string
@@ -576,16 +603,16 @@ func c17runCase(ctx *verifhlib.Ctx, kind string, nblobs, knownMask, sTTI, lTTI i
 	}
 	coq := fmt.Sprintf("mkcase (mkCfg %d %d) %s %s %s %s", sTTI, lTTI, verifhlib.Ns(known),
 		verifhlib.List(sops), verifhlib.List(sobs), verifhlib.B(w.stuck))
-	ctx.Emit(verifhlib.Case{Coq: coq, NT: len(calls) >= 1 && strings.Contains(strings.Join(hist, " "), "ApNew"),
+	cs := verifhlib.Case{Coq: coq, NT: len(calls) >= 1 && strings.Contains(strings.Join(hist, " "), "ApNew"),
 		Kind: kind, Hist: hist, Incon: incon, Tags: tags,
-		Sample: map[string]interface{}{"ops": sops, "obs": sobs, "loop_stuck": w.stuck}})
+		Sample: map[string]interface{}{"ops": sops, "obs": sobs, "loop_stuck": w.stuck}}
 	if !w.loop.stopped {
 		w.loop.stop()
 	}
-	if !allBack || w.stuck {
-		// leaked goroutines of this world are abandoned; the process exits at the end
-	}
+	// when a call was lost or the loop is stuck, the goroutines of this world are abandoned; the
+	// process exits at the end
 	w.cleanup()
+	return cs
 }
 
 func c17fixed(ops []c17op) c17script {
@@ -663,7 +690,14 @@ func c17driver(ctx *verifhlib.Ctx) {
 	// (8) eviction between completion and a new request
 	c17runCase(ctx, "seed-evicted-then-requested", 1, 1, 10, 60,
 		c17fixed([]c17op{D(1, 0), O("ApNew", 1), O("Feed", 0), O("ApComplete", 0), O("Evict", 0), D(2, 0), O("ApNew", 2)}), r, nil)
-	for i := 0; i < ctx.N; i++ {
+	// random schedules: parameters and one forked generator per case are drawn here, in order; the
+	// cases themselves are independent worlds and run on a few workers; emitted in order
+	type job struct {
+		nb, mask, sT, lT, n int
+		r                   *verifhlib.Rng
+	}
+	jobs := make([]job, ctx.N)
+	for i := range jobs {
 		nb := r.Range(1, 2)
 		mask := 1 + r.Intn(1<<uint(nb)-1)
 		if r.Chance(90) {
@@ -675,7 +709,31 @@ func c17driver(ctx *verifhlib.Ctx) {
 		if ctx.Tier == "thorough" {
 			n = r.Range(4, 45)
 		}
-		c17runCase(ctx, "random", nb, mask, sT, lT, c17random(n, nb, lT+1), r, nil)
+		jobs[i] = job{nb, mask, sT, lT, n, r.Fork()}
 	}
-	_ = os.Stderr
+	workers := 6
+	if v, err := strconv.Atoi(os.Getenv("VERIF_C17_WORKERS")); err == nil && v > 0 {
+		workers = v
+	}
+	out := make([]verifhlib.Case, len(jobs))
+	var next int32 = -1
+	var wg sync.WaitGroup
+	for k := 0; k < workers; k++ {
+		wg.Add(1)
+		go func() {
+			defer wg.Done()
+			for {
+				i := int(atomic.AddInt32(&next, 1))
+				if i >= len(jobs) {
+					return
+				}
+				j := jobs[i]
+				out[i] = c17oneCase("random", j.nb, j.mask, j.sT, j.lT, c17random(j.n, j.nb, j.lT+1), j.r, nil)
+			}
+		}()
+	}
+	wg.Wait()
+	for _, cs := range out {
+		ctx.Emit(cs)
+	}
 }
